@@ -22,12 +22,35 @@ def load_variants(prop: str) -> list[dict]:
     try:
         mod = importlib.import_module(f"selftest.variants.{prop.lower()}")
     except ImportError:
-        return []
-    return list(getattr(mod, "VARIANTS", []))
+        return load_seeds(prop)
+    return list(getattr(mod, "VARIANTS", [])) + load_seeds(prop)
+
+
+def load_seeds(prop: str) -> list[dict]:
+    """Seeded changes kept under /verif/seeded (made by independent sub-agents): each must still be reported by one of
+    the rules recorded in its meta.json."""
+    out = []
+    root = os.path.join(VERIF, "seeded")
+    if not os.path.isdir(root):
+        return out
+    for d in sorted(os.listdir(root)):
+        mp = os.path.join(root, d, "meta.json")
+        pp = os.path.join(root, d, "patch.diff")
+        if not (os.path.exists(mp) and os.path.exists(pp)):
+            continue
+        with open(mp, encoding="utf-8") as f:
+            meta = json.load(f)
+        rules = sorted({r for t in meta.get("detected_by", []) for r in re.findall(r"C\d\d\.R\w+", t) if r.startswith(prop + ".")})
+        if rules:
+            out.append({"name": f"seed-{d}", "patch": pp, "expect": rules})
+    return out
 
 
 def _apply(root: str, v: dict) -> str | None:
     """Apply the edit(s) of variant v below root; returns None if applied, else why stale."""
+    if "patch" in v:
+        p = subprocess.run(["git", "apply", "-p1", v["patch"]], cwd=root, capture_output=True, text=True)
+        return None if p.returncode == 0 else f"seeded patch does not apply: {p.stderr.strip()[:200]}"
     edits = v.get("edits") or [{"file": v["file"], "old": v["old"], "new": v["new"], "count": v.get("count", 1)}]
     for e in edits:
         path = os.path.join(root, e["file"])
@@ -114,6 +137,8 @@ def run_selftest(ctx, only: str | None = None) -> dict:
     ctx.r.selftest = summary
     print(f"[{prop}] selftest: {summary['passed']}/{summary['variants']} variants as expected "
           f"({summary['firing']} firing, {summary['silent_twins']} silent twins, {len(summary['stale'])} stale)")
+    for name in summary["stale"]:
+        print(f"SELFTEST-STALE {prop} {name}: anchor text / patch no longer applies to the tree (refresh the variant)")
     for r in summary["failed"]:
         print(f"SELFTEST-MISMATCH {prop} {r['name']}: expected {r['expect']!r}, outcome {r['outcome']}, reported {r['reported']}")
         if os.environ.get("VERIF_SELFTEST_VERBOSE"):
